@@ -1253,7 +1253,11 @@ class Interp:
             lo = self.eval(node.slice.lower, st, ctx) if node.slice.lower else None
             hi = self.eval(node.slice.upper, st, ctx) if node.slice.upper else None
             if node.slice.step is not None:
-                raise AnalysisError(f"slice step at {ctx.loc(node)}")
+                stepv = self.eval(node.slice.step, st, ctx)
+                if is_c(stepv) and stepv[1] == -1 and lo is None and hi is None:
+                    return self.lib.reverse_value(self, base, st, ctx, node)
+                if not (is_c(stepv) and stepv[1] in (1, None)):
+                    raise AnalysisError(f"slice step at {ctx.loc(node)}")
             return self.lib.slice_value(self, base, lo, hi, st, ctx, node)
         idx = self.eval(node.slice, st, ctx)
         return self.lib.index_value(self, base, idx, st, ctx, node)
@@ -1376,7 +1380,7 @@ def _benign_event(e: Event, st: State) -> bool:
         return True  # checked by write-effect rules separately; fresh-object stores are the norm
     if e.kind == "call" and e.target.startswith("logger."):
         return True
-    if e.kind in ("caught", "iter", "readattr"):
+    if e.kind in ("caught", "iter", "readattr", "reorder"):
         return True
     return False
 
